@@ -113,3 +113,6 @@ func vhPutString(b []byte, s string) []byte {
 func vhLE32(v uint32) []byte { b := make([]byte, 4); binary.LittleEndian.PutUint32(b, v); return b }
 func vhLE64(v uint64) []byte { b := make([]byte, 8); binary.LittleEndian.PutUint64(b, v); return b }
 func vhLE16(v uint16) []byte { b := make([]byte, 2); binary.LittleEndian.PutUint16(b, v); return b }
+
+// vhRandSeed returns a PRNG for an explicit seed (derived from VERIF_SEED by the caller).
+func vhRandSeed(seed int64) *rand.Rand { return rand.New(rand.NewSource(seed)) }
